@@ -23,9 +23,11 @@ func (r Range) Index(i int) any { return r.b + i }
 
 // AsArray converts the range into an array.
 func (r Range) AsArray() []any {
-	a := make([]any, 0, r.Len())
-	for i := r.b; i <= r.e; i++ {
-		a = append(a, i)
+	// count the elements: a loop "while i <= r.e" never ends when r.e is the largest int
+	n := r.Len()
+	a := make([]any, 0, n)
+	for k := 0; k < n; k++ {
+		a = append(a, r.b+k)
 	}
 	return a
 }
